@@ -38,7 +38,7 @@ python3 - "$id" "$out" <<'EOF'
 import json,sys
 id,out=sys.argv[1],sys.argv[2]
 m=json.load(open(out+'/meta.json'))
-m['property']=id
+m['property']=id[:3]
 m['confirmed']=["git apply --check patch.diff on a clean worktree: ok",
   "go build ./... and go build -tags verif ./... with the patch: ok",
   "go test -vet=off -count=1 ./... with the patch (suite unedited): pass",
